@@ -101,6 +101,8 @@ def run(ck: Checker) -> None:
     ck.guard("R-ORDER-KEY", lambda: T.r_order_key(ck, gens=("_gen_get_properties_func", "_gen_get_child_nodes_with_field_func"), base_props=False))
     ck.guard("R-ORDER-KEY", lambda: T.r_gen_stateless(ck))
     ck.guard("R-ENUM-SHAPE", lambda: T.r_enum_shape(ck))  # every position of a child sequence contributes (the same object twice is two positions)
+    from . import state_rules as S_
+    ck.guard("R-DIGEST-DEP", lambda: S_.r_unstable_key(ck, "R-DIGEST-DEP", [(NODE, "ASTNode.__post_init__"), (NODE, "ASTNode.is_equal")], "content_id is a function of the node's present content"))
     ck.guard("R-FLAGS-TT", lambda: T.r_flags_tt(ck))
     ck.guard("R-TYPES-CACHE", lambda: T.r_types_cache(ck))
     ck.guard("R-REINSTALL", lambda: T.r_reinstall(ck))  # every class hashes its own fields (no accessor inherited from a base class)  # the digest is computed from the per-class field tables
